@@ -197,5 +197,28 @@ def run(facts, tier):
         if not ok:
             res.add(Finding("C16-5", ty, "%s: split_at must dominate insert_after(new, self.id()) (split_at in %s, insert_after in %s)"
                             % (f["path"], sp, ia), f["file"], f["line"], {}))
+    # ---- C16-6: insert_after(new, id) = insert_before(new, <id of the child at index(id) + 1>)  (or append at the end)
+    from props import c14
+    st6 = res.rule("C16-6", instances=1)
+    f = facts.fn("xml_info::HasChildren::insert_after")
+    defs = e1.def_sites(facts, f)
+    blocks = facts.blocks(f)
+    ib = [(bi, t) for bi, t in facts.mir_calls(f) if t.get("callee") and facts.callee_name(t["callee"]).endswith("HasChildren::insert_before")]
+    cb = [(bi, t) for bi, t in facts.mir_calls(f) if t.get("callee") and facts.callee_name(t["callee"]).endswith("HasChildren::child_by_index")]
+    if not ib or not cb:
+        raise BrokenCheck("C16-6: HasChildren::insert_after no longer calls child_by_index / insert_before; shape not recognised")
+    why = []
+    for bi, t in ib:
+        p = e1.producer(facts, f, defs, t["args"][2])
+        if p != "id":
+            why.append("insert_before is given %s as reference, expected the id() of the following child" % p)
+    for bi, t in cb:
+        a = c14.affine(facts, f, defs, t["args"][1])
+        if a[1] != 1:
+            why.append("the following child is looked up at index%+d, expected index+1" % a[1])
+    res.oblige(1, not why)
+    if why:
+        res.add(Finding("C16-6", "HasChildren::insert_after", "%s: %s - split_text puts the new node at the wrong place when the split node "
+                        "has a following sibling" % (f["path"], "; ".join(why)), f["file"], f["line"], {}))
     res.functions_analysed = len(reach)
     return res
